@@ -896,8 +896,10 @@ def run(ck):
                 scripts.append(("corpus:" + f, [l.rstrip("\n") for l in open(os.path.join(d, f)) if l.strip()]))
     scripts.append(("pwv", ["control"] + gen_pwv_scripts(ck.rng.fork("pwv"), 300 if quick else 4000)))
     plan_corpus = []
+    hist_corpus = []
     for tag, script in scripts:
-        lines = [l for l in script[1:] if l.split()[0] not in ("plan", "rrt", "sst", "est", "kpiece", "pdst")]
+        hist_corpus += [l for l in script[1:] if l.split()[0] == "hist"]
+        lines = [l for l in script[1:] if l.split()[0] not in ("plan", "rrt", "sst", "est", "kpiece", "pdst", "hist", "pmisc")]
         plan_corpus += [l for l in script[1:] if l.split()[0] in ("plan", "rrt", "sst", "est", "kpiece", "pdst")]
         if not lines:
             continue
@@ -1148,6 +1150,9 @@ def run(ck):
                 line = " ".join(["hist", planner] + pb.toks() + ["k=%d" % rh.choice([1, 2, 3]), "bias=" + B(rh.choice([0.05, 0.0, 1.0])),
                                                                  "seed=%d" % rh.below(100000), "ops"] + ops)
                 hjobs.append((planner, pb, line, "clear" in ops))
+    for line in hist_corpus:
+        t = line.split()
+        hjobs.append((t[1], parse_plan_line(" ".join(["plan"] + t[1:t.index("ops")] + ["budget=0"]))[1], line, "clear" in t))
     with concurrent.futures.ThreadPoolExecutor(max_workers=min(16, os.cpu_count() or 4)) as ex:
         futs = [ex.submit(run_one, ck, hbin, j[2], NOLEAK) for j in hjobs]
         for (planner, pb, line, has_clear), fu in zip(hjobs, futs):
@@ -1286,7 +1291,7 @@ def replay(ck, data):
         t = line.split()
         if t[0] == "hist":
             out, rc, err = run_one(ck, hbin, line, NOLEAK)
-            planner, pb, _, _ = parse_plan_line("plan " + " ".join(t[1:t.index("ops")]) + " seed=0 budget=0") if False else (t[1],) + (parse_plan_line(" ".join(["plan"] + t[1:t.index("ops")] + ["budget=0"]))[1], 0, 0)
+            pb = parse_plan_line(" ".join(["plan"] + t[1:t.index("ops")] + ["budget=0"]))[1]
             for ln in out:
                 for c in ln.split(" || ")[1:]:
                     sol = parse_solution(c, pb.sy.nreals)
